@@ -40,6 +40,8 @@ type tctl struct {
 	cloneF      func(f filter.Filter) (*tctl, func(filter.Filter) error, error)
 	cloneFF     func() (*tctl, func(filter.Filter) error, error)
 	unitary     func(log logutil.Log, rec func(what string, id int)) (kcache.Monitor, error)
+	monitorMask func(mask int, rec func(what string, ids []int)) (kcache.Monitor, error)
+	unitaryMask func(log logutil.Log, mask int, rec func(what string, id int)) (kcache.Monitor, error)
 }
 
 // tsub is a typed subscription.
